@@ -54,9 +54,26 @@ class _BooleanOperationsImpl(OperationsBlock):
         x, y = map(ndx.asarray, (x, y))
         y_np = y.to_numpy()
         x_np = x.to_numpy()
-        if x_np is not None and x_np.size == 1 and x.ndim <= y.ndim and x_np.item():
+        # The shortcut is only sound for boolean operands, and a nullable operand's mask
+        # must not be dropped.
+        bools = (ndx.bool, ndx.nbool)
+        if (
+            x_np is not None
+            and x.dtype == ndx.bool
+            and y.dtype in bools
+            and x_np.size == 1
+            and x.ndim <= y.ndim
+            and x_np.item()
+        ):
             return y.copy()
-        elif y_np is not None and y_np.size == 1 and y.ndim <= x.ndim and y_np.item():
+        elif (
+            y_np is not None
+            and y.dtype == ndx.bool
+            and x.dtype in bools
+            and y_np.size == 1
+            and y.ndim <= x.ndim
+            and y_np.item()
+        ):
             return x.copy()
         return binary_op(x, y, opx.and_)
 
@@ -71,10 +88,25 @@ class _BooleanOperationsImpl(OperationsBlock):
         x, y = map(ndx.asarray, (x, y))
         x_np = x.to_numpy()
         y_np = y.to_numpy()
-        if x_np is not None and x_np.size == 1 and x.ndim <= y.ndim and not x_np.item():
+        # The shortcut is only sound for boolean operands, and a nullable operand's mask
+        # must not be dropped.
+        bools = (ndx.bool, ndx.nbool)
+        if (
+            x_np is not None
+            and x.dtype == ndx.bool
+            and y.dtype in bools
+            and x_np.size == 1
+            and x.ndim <= y.ndim
+            and not x_np.item()
+        ):
             return y.copy()
         elif (
-            y_np is not None and y_np.size == 1 and y.ndim <= x.ndim and not y_np.item()
+            y_np is not None
+            and y.dtype == ndx.bool
+            and x.dtype in bools
+            and y_np.size == 1
+            and y.ndim <= x.ndim
+            and not y_np.item()
         ):
             return x.copy()
         return binary_op(x, y, opx.or_)
